@@ -64,6 +64,11 @@ def run(tier, seed):
             if fmt == "tpm":
                 s.k["tpm_name_alg"] = ("SHA256", "SHA1", "SHA384", "SHA512")[i % 4]
             pd, reg = regsim.build(s)
+            if i % 6 == 3 and pd.get("roots"):
+                # the same anchors in other admissible PEM spellings (leading newline, comment / `openssl x509` preamble, CRLF, trailing text)
+                deco = [lambda p: b"\n" + p, lambda p: b"# RP trust anchor\n" + p, lambda p: b"subject=/CN=anchor\nissuer=/CN=anchor\n" + p,
+                        lambda p: p.replace(b"\n", b"\r\n"), lambda p: p + b"\ntrailing text\n"][(i // 6) % 5]
+                pd = dict(pd, roots={f: [deco(p) for p in l] for f, l in pd["roots"].items()})
             cred = authsim.Cred(kind)
             aag = bytes(16) if fmt == "fido-u2f" else s.aaguid
             exp = expected_reg_line(s, reg, pd, cred.cose_bytes, aag)
